@@ -455,17 +455,22 @@ macro_rules! flavour_impl {
                         }
                     };
                     res = self.with_handle(&spec["root"], |root| {
+                        // method_first: the closure is attached before transpose() / pre() / post() are called
+                        let method_first = spec.get("method_first").and_then(|b| b.as_bool()).unwrap_or(false);
                         let mut s = sel!($kind, {
                             { let mut s = if pre { root.preorder() } else { root.postorder() };
-                              if transpose { s = s.transpose(); }
+                              if transpose && !method_first { s = s.transpose(); }
                               s }
                         }, {
-                            { if pre { root.order().pre() } else { root.order().post() } }
+                            { if method_first { root.order() } else if pre { root.order().pre() } else { root.order().post() } }
                         });
                         match method {
                             "filter" => { s = s.filter(&mut filt); }
                             "foreach" => { s = s.for_each(&mut fe); }
                             _ => {}
+                        }
+                        if method_first {
+                            sel!($kind, { if transpose { s = s.transpose(); } }, { s = if pre { s.pre() } else { s.post() }; });
                         }
                         let keep = spec.get("keep").and_then(|k| k.as_str()).map(|k| k.to_string());
                         if spec["mode"].as_str().unwrap() == "nodes" {
